@@ -7,13 +7,16 @@ Local Open Scope Z_scope.
 
 (** T-bal: whatever an evaluation nests - calls, let, macros, captured scopes and groups,
     relative evaluation, scans, any of the ~100 operators - when it completes the current
-    environment is the one it was entered with and the stack of saved positions is unchanged;
+    environment is the one it was entered with, the stack of saved positions is unchanged, and the
+    heap of environments has only grown (no frame dropped, no parent link changed);
     the same for the macro-expansion pass.  Any fuel, any expression, any state. *)
 Theorem balanced_context : forall lf fuel,
   (forall e st v st', eval lf fuel e st = Ok v st' ->
-     st_cur st' = st_cur st /\ c_stack (st_cont st') = c_stack (st_cont st)) /\
+     st_cur st' = st_cur st /\ c_stack (st_cont st') = c_stack (st_cont st) /\
+     exists extra, parents st' = parents st +++ extra) /\
   (forall e p st v st', expand lf fuel e p st = Ok v st' ->
-     st_cur st' = st_cur st /\ c_stack (st_cont st') = c_stack (st_cont st)).
+     st_cur st' = st_cur st /\ c_stack (st_cont st') = c_stack (st_cont st) /\
+     exists extra, parents st' = parents st +++ extra).
 Proof.
   intros lf fuel. destruct (eval_expand_balanced lf fuel) as [He Hx]. split.
   - intros e st v st' H. exact (He e st v st' H).
